@@ -158,6 +158,10 @@ fn all_ops() -> Vec<Op> {
       }
     }
   }
+  // degenerate requests: a module renamed to its own name
+  for a in 0..3u8 {
+    ops.push(Op::Rename(a, a));
+  }
   for k in 0..UPDATE2.len() as u8 {
     ops.push(Op::Update2(k));
   }
